@@ -256,7 +256,13 @@ impl Accept for UnixListener {
 
     fn poll_accept(self: Pin<&mut Self>, cx: &mut Context<'_>) -> Poll<io::Result<Self::Conn>> {
         UnixListener::poll_accept(self.get_mut(), cx).map(|res| {
-            res.and_then(|(stream, remote)| Ok(UnixStream::new(stream, Some(remote.try_into()?))))
+            res.map(|(stream, remote)| {
+                // The peer may be bound to a path which is not valid UTF-8. That is a property
+                // of one connection, and must not become an accept error, which would end the
+                // server: such a peer is reported without a path.
+                let remote = UnixAddr::try_from(remote).unwrap_or_else(|_| UnixAddr::unnamed());
+                UnixStream::new(stream, Some(remote))
+            })
         })
     }
 }
